@@ -93,8 +93,11 @@ def run(ctx):
     vlib.go_run(ctx, binary, "TestVerifSampleBuilder", infile, trace, timeout=1500)
 
     # 5b. conformance of the transcription: ALL finished sessions of the exhaustive run are replayed and pion's
-    #     output is compared with the model's prediction.  A difference is model drift (reported in the
+    #     (a seeded subset of 30 000 when there are more) output is compared with the model's prediction.  A difference is model drift (reported in the
     #     evidence), never a verdict: verdicts come from the normative predicates only.
+    ctx.cov["exhaustive_sessions_enumerated"] = len(conf)
+    if len(conf) > 30000:          # seeded subset; the number replayed is stated in the evidence
+        conf = sub[:30000]
     for i, c in enumerate(conf):
         c["id"] = i
         c["tsBack"] = tsbacks[i % len(tsbacks)]
